@@ -140,3 +140,41 @@ mut("c06-writer-ignores-encoding-for-prefix", "C06", ISO,
     "        output += format(field_length, '0' + str(length_size)).encode(encoding)",
     "        output += format(field_length, '0' + str(length_size)).encode('latin_1')",
     note="length prefixes always ASCII: EBCDIC files unreadable")
+
+# ---- C07 ------------------------------------------------------------------------------------
+mut("c07-revert-pds-fix", "C07", ISO,
+    "        try:\n            pds_field_length = int(field_data[field_pointer+4:field_pointer+7])\n        except ValueError as ex:\n            raise Iso8583DataError(f'Invalid PDS field length for PDS{pds_field_tag}', original_exception=ex)\n        if pds_field_length < 0:\n            raise Iso8583DataError(f'Negative PDS field length for PDS{pds_field_tag}')\n",
+    "        pds_field_length = int(field_data[field_pointer+4:field_pointer+7])\n",
+    note="reverts fix 6a4f274 (ValueError and endless loop)")
+mut("c07-pds-negative-unchecked", "C07", ISO,
+    "        if pds_field_length < 0:\n            raise Iso8583DataError(f'Negative PDS field length for PDS{pds_field_tag}')\n",
+    "",
+    note="only the negative check removed: the PDS walker can run backwards forever (needs a sub-length of -07 or below)")
+mut("c07-pds-negative-only-below-minus7", "C07", ISO,
+    "        if pds_field_length < 0:",
+    "        if pds_field_length < -7:",
+    note="hang only for the sub-length -07 exactly (pointer stands still)")
+mut("c07-revert-icc-fix", "C07", ISO,
+    "        if not field_length_raw:\n            raise Iso8583DataError(f'ICC tag {field_tag_display.decode()} has no length byte',\n                                   binary_context_data=field_data)\n",
+    "",
+    note="reverts fix 992f8d1 (struct.error)")
+mut("c07-revert-hexbitmap-fix", "C07", ISO,
+    "    except (struct.error, binascii.Error) as ex:",
+    "    except struct.error as ex:",
+    note="reverts fix d829c0e (binascii.Error)")
+mut("c07-revert-decimal-fix", "C07", ISO,
+    "    except (ValueError, decimal.InvalidOperation) as ex:",
+    "    except ValueError as ex:",
+    note="reverts fix b8cd14b (decimal.InvalidOperation; needs a generated configuration with a decimal field)")
+mut("c07-reader-lets-iso-error-escape", "C07", MC,
+    "        except CardutilError as ex:\n            raise MciIpmDataError(",
+    "        except MciIpmDataError as ex:\n            raise MciIpmDataError(",
+    note="IpmReader no longer wraps Iso8583DataError: the tools would traceback")
+mut("c07-final-length-assert", "C07", ISO,
+    "    if message_pointer != len(message_data):\n        raise Iso8583DataError(\n            f'Message data not correct length. '\n            f'Bitmap indicates len={message_pointer}, message is len={len(message_data)}',\n            binary_context_data=message\n        )",
+    "    assert message_pointer == len(message_data), 'Message data not correct length'",
+    note="length check as an assert: AssertionError escapes")
+mut("c07-prefix-decode-unguarded", "C07", ISO,
+    "        except UnicodeDecodeError as ex:\n            raise Iso8583DataError(f'Unable to decode DE{bit} field length',",
+    "        except UnicodeEncodeError as ex:\n            raise Iso8583DataError(f'Unable to decode DE{bit} field length',",
+    note="UnicodeDecodeError from a length prefix escapes (ascii codec only)")
